@@ -498,7 +498,26 @@ def generate():
                  "ms.getPositionalArgConstraint(nextargnum)",
                  "ms.getKeywordArgConstraint(self.argname, self.numargs, list(self.kwargs.keys()))"):
         need(frag in asrc, "ArgumentUnslicer no longer contains: " + frag)
-    ru = U(P.find_def(P.load("slicer.py"), "ReferenceUnslicer.receiveChild"))
-    need("if self.constraint:\n        self.constraint.checkObject(self.obj, True)" in ru, "ReferenceUnslicer no longer re-checks the object")
-    out.append("Definition reference_rechecks_object : bool := true.")
+    # ReferenceUnslicer.receiveChild: `if self.constraint: self.constraint.checkObject(self.obj, True)` must be a top-level
+    # statement reached on EVERY path after `self.obj = self.protocol.getObject(obj)`: no return / continue / break and no
+    # re-binding of self.obj / self.constraint in between (e.g. an early return for Deferred placeholders skips it)
+    rc = P.find_def(P.load("slicer.py"), "ReferenceUnslicer.receiveChild")
+    srcs = [str(U(x)) for x in rc.body]
+    rechecks = False
+    bind = [i for i, x in enumerate(srcs) if flat(x) == "self.obj = self.protocol.getObject(obj)"]
+    chk = [i for i, x in enumerate(srcs) if flat(x) == "if self.constraint: self.constraint.checkObject(self.obj, True)"]
+    need(len(bind) == 1, "ReferenceUnslicer.receiveChild no longer binds self.obj = self.protocol.getObject(obj)")
+    if len(chk) == 1 and chk[0] > bind[0]:
+        between = rc.body[bind[0] + 1:chk[0]]
+        escapes = [n for x in between for n in ast.walk(x) if isinstance(n, (ast.Return, ast.Continue, ast.Break))]
+        rebinds = [n for x in between for n in ast.walk(x) if isinstance(n, ast.Attribute) and isinstance(n.ctx, ast.Store)
+                   and str(U(n)) in ("self.obj", "self.constraint")]
+        rechecks = not escapes and not rebinds
+    out.append("Definition reference_rechecks_object : bool := %s.  (* the referenced object (also a still-open tuple's "
+               "placeholder) is passed to constraint.checkObject on every path *)" % ("true" if rechecks else "false"))
+    need("return (self.obj, None)" in U(P.find_def(P.load("slicer.py"), "ReferenceUnslicer.receiveClose")),
+         "ReferenceUnslicer.receiveClose changed")
+    tstart = U(P.find_def(sl["tuple"], "TupleUnslicer.start"))
+    need("self.deferred = Deferred()" in tstart and "self.protocol.setObject(count, self.deferred)" in tstart,
+         "TupleUnslicer.start no longer registers a Deferred placeholder for the open tuple")
     return {"SchemaGen.v": "\n\n".join(out) + "\n"}
